@@ -467,6 +467,9 @@ pub fn run(o: &Opts) -> i32 {
             gen.push(DefEntry { name: "m".into(), def: Rc::new(Def::BaseUnit { long_name: Some("meter".into()) }), doc: Some("the metre".into()), category: Some("lengths".into()) });
             gen.push(DefEntry { name: "am".into(), def: Rc::new(Def::BaseUnit { long_name: None }), doc: None, category: Some("lengths".into()) });
             gen.push(mkp("d", "1|10", false)); gen.push(mkp("da", "10", false)); gen.push(mkp("deci", "d", true)); gen.push(mkp("a", "1|1000", false)); gen.push(mkp("ab", "7", false));
+            // a name that is both prefix + unit and the plural of another unit (`ks` = k + s, not the plural of the unit k)
+            gen.push(DefEntry { name: "s".into(), def: Rc::new(Def::BaseUnit { long_name: None }), doc: None, category: None });
+            gen.push(mkp("k", "1000", false)); gen.push(unit("k", "5 m")); gen.push(unit("aab", "3 ks")); gen.push(unit("zab", "3 ks"));
             gen.push(unit("bc", "3 m")); gen.push(unit("c", "5 am")); gen.push(unit("mas", "11 m")); gen.push(unit("ma", "13 am"));
             for (n, e) in [("amb1", "1 dam"), ("amb2", "2 abc"), ("amb3", "3 mas"), ("amb4", "4 dmas"), ("amb5", "5 dams"), ("amb6", "decimeter + 1 dm"), ("amb7", "meter / am"), ("amb8", "damb1"), ("amb9", "2 amb8s")] {
                 let mut d = unit(n, e); d.category = Some("lengths".into()); d.doc = Some(format!("doc of {}", n)); gen.push(d);
